@@ -132,6 +132,7 @@ type caseRun struct {
 	dir        string
 	panics     atomic.Int32
 	race       bool
+	maxFiles   int
 }
 
 func (c *caseRun) mark(bit uint32) {
@@ -247,6 +248,12 @@ func (c *caseRun) sr() *io.SectionReader {
 
 // runBlobChain pushes c.in.Blob through everything.
 func (c *caseRun) runBlobChain() {
+	// every read of a zstd:chunked layer costs the repo a complete decoder set-up
+	// (tens of milliseconds of CPU): fewer files per stage there
+	c.maxFiles = maxFiles
+	if c.in.Framing == frZstd {
+		c.maxFiles = 3
+	}
 	c.footers()
 	c.openEstargz()
 	c.unpackAll(c.in.Blob, c.in.ExtTOC)
@@ -433,7 +440,7 @@ func (c *caseRun) openEstargz() {
 					_ = ce.ChunkOffset
 				}
 			}
-			if fi.Mode().IsRegular() && len(files) < maxFiles {
+			if fi.Mode().IsRegular() && len(files) < c.maxFiles {
 				files = append(files, e.Name)
 			}
 			kids := 0
@@ -582,7 +589,7 @@ func (c *caseRun) walkMeta(tag string, mr metadata.Reader, visitCap int) []fileR
 			if _, err := mr.GetOffset(it.id); err != nil {
 				c.err(tag+".GetOffset", err)
 			}
-			if attr.Mode.IsRegular() && len(files) < maxFiles {
+			if attr.Mode.IsRegular() && len(files) < c.maxFiles {
 				files = append(files, fileRef{it.id, attr.Size})
 			}
 			if !attr.Mode.IsDir() {
@@ -1056,7 +1063,7 @@ func (c *caseRun) walkNodes(store string, root *nodefs.N) {
 			case 0o120000:
 				_, _ = n.Readlink()
 			case 0o100000:
-				if opened >= maxFiles {
+				if opened >= c.maxFiles {
 					return
 				}
 				opened++
